@@ -204,6 +204,10 @@ def run(ctx):
   ctx.assumptions += ['quiescence excludes the 60 s self-metrics timer (CARBON_METRIC_INTERVAL), as "all timers fired" implies']
   cache_side(ctx)
   relay_side(ctx)
+  # beyond the listed property: admission of client connections (MAX_RECEIVER_CONNECTIONS) - a listening port
+  # paused at the limit must listen again when a connection goes away (Listen.tla; deviations reported as drift)
+  from . import listensys
+  listensys.section(ctx)
 
 
 def replay(ctx, rp):
